@@ -13,7 +13,9 @@ RULE = (
     "generated schemas (code-built with coded enums, python names and defaults of every input kind; "
     "SDL-built incl. deprecations) are serialised with Schema.to_string over the option grid indent "
     "{2,4,tab} x descriptions x introspection x custom-schema-directives (bool and whitelist) in a "
-    "random sequence of 40-120 calls per process that interleaves several schemas and repeats keys; "
+    "random sequence of 40-120 calls per process that interleaves several schemas (one of them a "
+    "sibling of another: same type names, rotated internal enum values, defaults with the same python "
+    "values under other names) and repeats keys; "
     "a monitor checks every output: the parser accepts it; without introspection it is rebuilt with "
     "build_schema and the canonical description of the rebuilt schema must equal that of the schema "
     "IR (names for enum values, no resolvers) and re-printing the rebuilt schema must give the same "
@@ -35,10 +37,55 @@ for indent in (2, 4, "\t"):
                                     "include_custom_schema_directives": custom})
 
 
+def sibling_ir(ir):
+    """Same type names, different meaning: the internal values of every coded enum are rotated by one
+    member and every enum default is renamed so that its *internal* value stays what it was. Anything
+    that remembers a rendering by type name and python value confuses the two schemas."""
+    import copy
+
+    sib = copy.deepcopy(ir)
+    rename = {}
+    for t in sib.types.values():
+        if t.kind == "enum" and getattr(t, "coded", False) and len(t.values) >= 2:
+            vals = [v.value for v in t.values]
+            n = len(vals)
+            for i, v in enumerate(t.values):
+                v.value = vals[(i + 1) % n]
+                rename[v.name] = t.values[(i - 1) % n].name
+
+    def m(v):
+        if isinstance(v, S.EnumLit):
+            return S.EnumLit(rename.get(v.name, v.name))
+        if isinstance(v, list):
+            return [m(x) for x in v]
+        if isinstance(v, dict):
+            return type(v)((k, m(x)) for k, x in v.items())
+        return v
+
+    def fix(inputs):
+        for a in inputs:
+            if a.has_default:
+                a.default = m(a.default)
+
+    for t in sib.types.values():
+        if t.kind in ("object", "interface"):
+            for f in t.fields:
+                fix(f.args)
+        elif t.kind == "input":
+            fix(t.input_fields)
+    for d in sib.directives.values():
+        fix(d.args)
+    return sib, bool(rename)
+
+
 def make_schema(key, hostile=False):
     """Deterministic (ir, schema, mode) from a seed key; used by the check and by fresh processes."""
     import py_gql
 
+    if key.endswith("#sibling"):
+        ir = S.generate(random.Random(key[:-len("#sibling")]), hostile_descriptions="no-rewrap" if hostile else False)
+        sib, _changed = sibling_ir(ir)
+        return sib, S.build_code_schema(sib)[0], "code"
     rng = random.Random(key)
     ir = S.generate(rng, hostile_descriptions="no-rewrap" if hostile else False)
     mode = rng.choice(["code", "code", "sdl"])
@@ -97,6 +144,8 @@ def run(ctx):
     for hi in range(ctx.n(12)):
         hostile = hi % 5 == 4
         keys = ["c12:%d:%d:%d:%d" % (ctx.seed, ctx.shard, hi, j) for j in range(rng.randint(2, 4))]
+        # a sibling of the first schema: same type names, other internal enum values
+        keys.append(keys[0] + "#sibling")
         schemas = {}
         for k in keys:
             try:
